@@ -9,6 +9,7 @@ def run(ctx, rep):
     recursion.rule_no_host_recursion_for_script_calls(ctx, rep, "C02-R2")
     recursion.rule_host_reentry_guarded(ctx, rep, "C02-R3")
     recursion.rule_data_recursion_guarded(ctx, rep, "C02-R3b", floor=4)
+    recursion.rule_depth_budget_shared(ctx, rep, "C02-R3c")
     emitrules.report(
         ctx,
         rep,
